@@ -22,6 +22,7 @@ RULES = {
     'C04.O5': 'at W(header) switching a table: the new table and everything it points to is synced',
     'C04.O6': 'a cached slice write is polled only after the zeroing of its new cluster completed',
     'C04.O7': 'at W(L2)/W(L1): no copy-on-write data write is unsynced',
+    'C04.O8': 'a cluster leaves the new-cluster map only after the zeroing request created for it has completed',
     'C02.5': 'a cached slice is written only by a function that resolved the new-cluster state of its host cluster',
     'C04.L': 'refcount phase precedes the mapping phase in every pass of a flush loop',
 }
@@ -242,7 +243,7 @@ def common(ctx, rep):
 
 def run(ctx, rep):
     rep.explanation = (
-        'C04 is decided in part: the ordering obligations O1-O7 (a pointer is written only after its target is '
+        'C04 is decided in part: the ordering obligations O1-O8 (a pointer is written only after its target is '
         'synced; refcounts before mappings; releases after unreferencing; zero-once before slice writes; header '
         'switch after the new table is synced) are evaluated at every backend write on every path of every public '
         'operation, with the unsynced-request set closed over all histories of API calls. Torn writes inside one '
@@ -257,6 +258,7 @@ def run(ctx, rep):
     d = common(ctx, rep)
     n_ob = len([1 for (r, s) in d.obl if r.startswith('C04')])
     rep.floor('ordering obligations evaluated', n_ob, 10)
+    rep.floor('removals from the new-cluster map', len({w for (k, w) in d.sites if k == 'newmap-remove'}), 2)
     report(d, rep, {k for k in RULES if k.startswith('C04')})
     phase(d, rep, 'C04.L')
     from .c15 import key_rule
